@@ -149,4 +149,22 @@ CHECKS = {
               "probe operation and the internal projection. Inflated states (up to 20 000 keys / 200 origins) and undecodable states complete the picture."),
         design_ref="DESIGN.md section 7 C19",
         note="The specification cannot prove anything about rkyv; it provides the states and the equality oracle (section 11)."),
+    "C11": dict(
+        engine="tlc + h-node",
+        technique="TLC exhaustive model checking of ClockActor.tla (tasks, bounded FIFO channel, single actor over HLC.tla) + TLC trace validation of concurrent runs of the real Clock",
+        text=("ClockActor.tla composes HLC.tla's send/recv with the channel and the actor loop; TLC checks distinctness, per-task monotonicity and "
+              "'a stamp requested after a registration exceeds it' over every interleaving of three scripted tasks. The real Clock is then driven by "
+              "2..8 tasks on current-thread and multi-thread runtimes; caller-side start/end events and actor-side hook events share one sequence "
+              "number and Trace_ClockActor.tla re-checks the three clauses from sound order facts only."),
+        design_ref="DESIGN.md section 7 C11",
+        note="Real schedules are sampled (seeded), the model's are exhaustive for its scripts. HLC.tla itself is bound to the code by C09."),
+    "C18": dict(
+        engine="tlc + h-ec",
+        technique="TLC exhaustive model checking of KeyspaceGroup.tla (steps of get_or_create_keyspace interleaved) + TLC trace validation of concurrent first-use rounds on the real group",
+        text=("KeyspaceGroup.tla splits get_or_create_keyspace into read-locked lookup, spawn (after awaits) and write-locked install; TLC checks for every "
+              "interleaving of up to 4 tasks that only one state is ever installed and that the state behind a later lookup holds every acknowledged "
+              "mutation. Rounds of 2..8 tasks first-using a fresh keyspace run on the real group (current-thread runtime: every await is a deterministic "
+              "switch point; multi-thread: sampled); acknowledged ids, the final set and the installation count (hook) are validated by Trace_KeyspaceGroup.tla."),
+        design_ref="DESIGN.md section 7 C18",
+        note="The current-thread rounds reproduce the double-creation deterministically on the pinned code; multi-thread rounds are a sample."),
 }
